@@ -1,7 +1,7 @@
 SPECIFICATION Spec
 CONSTANTS
   Shapes = {"L2", "R2", "NEG3", "L3"}
-  LeafPool = {"iv7", "in3", "f15", "iv1", "ss", "bf", "pt", "idx", "call", "paren", "fld", "cfld", "f32v"}
+  LeafPool = {"iv7", "in3", "f15", "iv1", "ss", "bf", "pt", "idx", "call", "paren", "fld", "cfld", "f32v", "u7"}
   BinOps <- cBinOps
   Emit = TRUE
 INVARIANTS BoolOps IntClosed EmitVec
